@@ -181,6 +181,10 @@ def check(ctx, run):
                witness=bad or "8 texts", what="" if bad is None else "an entity produced earlier would be escaped again, or a character is left raw: " + bad)
     except Unknown as u:
         run.broke("C16.R2: encodeXmlText cannot be folded: %s" % u)
+    # the escaper relies on SimpleString::replace: its own folds above use a reference model of replace, so replace itself
+    # is folded here on texts made of the characters the escaper replaces (doubled, adjacent, at both ends)
+    from .C13 import replace_rule
+    replace_rule(prog, run, "R2", alphabet="&<x", patterns=("&", "<", "&&", "<&"), replacements=("&amp;", "&lt;", ""), maxlen=4)
     for k_ in range(1):
         run.ob("R2", "the escaper takes its argument by value semantics (the caller's string is not modified)", enc.site, "const" in enc.params[0]["ct"], witness=enc.params[0]["ct"])
 
